@@ -884,6 +884,19 @@ func (p *printer) str(t *Term, top bool) string {
 // SMTQuery prints a query asserting all of asserts; extra are axioms text already in SMT syntax.
 func SMTQuery(asserts []*Term, prelude []string, getModel bool) string {
 	p := &printer{names: map[int]string{}, refs: map[int]int{}, syms: map[string]bool{}}
+	{
+		// the same fact is often assumed at several program points (range facts at every read): assert it once
+		seen := map[int]bool{}
+		uniq := asserts[:0:0]
+		for _, a := range asserts {
+			if a == True || seen[a.id] {
+				continue
+			}
+			seen[a.id] = true
+			uniq = append(uniq, a)
+		}
+		asserts = uniq
+	}
 	for _, a := range asserts {
 		p.count(a)
 	}
